@@ -122,6 +122,38 @@ func main() {
 		c := &Ctx{P: p, Prop: prop, Tier: *tier}
 		c.runRules(rs)
 		extra := map[string]any{}
+		if *tier == "thorough" && os.Getenv("VERIF_SELFTEST") == "" {
+			// second configuration: GOARCH=386 selects int_generic.go and a 32-bit int
+			p2, err := Load(absRepo, "386", overlay)
+			if err != nil {
+				c.failures = append(c.failures, "GOARCH=386 configuration: "+err.Error())
+			} else {
+				c2 := &Ctx{P: p2, Prop: prop, Tier: *tier}
+				c2.runRules(rs)
+				for _, o := range c2.obs {
+					o.Key = "[GOARCH=386] " + o.Key
+					c.obs = append(c.obs, o)
+				}
+				for _, f := range c2.failures {
+					c.failures = append(c.failures, "[GOARCH=386] "+f)
+				}
+				extra["second_configuration"] = map[string]any{"goarch": "386", "packages": len(p2.Pkgs), "functions": len(p2.Funcs), "obligations": len(c2.obs)}
+			}
+			// seeded-mutant self-test (in-memory overlays, subprocesses)
+			mres, mfail := runMutants(prop, absRepo, *verif)
+			c.failures = append(c.failures, mfail...)
+			extra["mutant_selftest"] = mres
+			det, sil := 0, 0
+			for _, r := range mres {
+				if r.Outcome == "detected" {
+					det++
+				}
+				if r.Outcome == "silent" {
+					sil++
+				}
+			}
+			fmt.Printf("  selftest: %d mutants run, %d seeded breakages detected, %d behaviour-preserving variants silent\n", len(mres), det, sil)
+		}
 		code := c.finish(*verif, rs, start, seed, extra)
 		os.Exit(code)
 	default:
